@@ -1,6 +1,6 @@
 (* C08 -- Every peer-opened stream is delivered exactly once at any acceptance pace. *)
-From WT.Model Require Import Base Handoff.
-From WT.Proofs Require Import HandoffP.
+From WT.Model Require Import Base Handoff Trace.
+From WT.Proofs Require Import HandoffP TraceP.
 From Coq Require Import Permutation.
 
 (* for every capacity and every history (any interleaving of peer, worker, tasks, application, any
@@ -26,6 +26,25 @@ Theorem C08_delivery_possible :
                  (repeat WorkerAccept (S (length pre)) ++ [PeerPreamble j] ++ drain (length (chan s)) ++ [TaskSend j; AppRecv])
                = Some s' /\ In j (delivered s').
 Proof. exact healthy_stream_is_delivered. Qed.
+
+(* the tie to the running driver (suite "trace"): the driver's own event log, as accepted by the validator
+   [orun], is an execution on which the statement above holds -- for every log, of any length *)
+Theorem C08_observed_traces_exactly_once :
+  forall cap es o, orun cap oinit es = Some o ->
+    NoDup (delivered (hs o)) /\ (forall x, In x (delivered (hs o)) -> In x (opened (hs o))) /\
+    NoDup (all_ids (hs o)) /\ Permutation (all_ids (hs o)) (opened (hs o)).
+Proof. exact observed_exactly_once. Qed.
+
+(* and an accepted log whose receives are first-in-first-out is literally a run of the transition system
+   (trace inclusion; one channel slot of slack because sends and receives are logged after the fact) *)
+Theorem C08_observed_fifo_trace_is_a_run :
+  forall cap es o o', orun cap o es = Some o' -> all_fifo cap o es = true ->
+    run (step (S cap)) (hs o) (all_labels cap o es) = Some (hs o').
+Proof. exact observed_trace_is_a_run. Qed.
+
+Example C08_validator_refuses_double_delivery :
+  orun 4 oinit [OAccept 2; OPreWt 2; OSendBegin 2; OSendEnd 2; ORecv 2; ORecv 2] = None.
+Proof. exact trace_refuses_double_delivery. Qed.
 
 Example C08_example :
   option_map delivered (run (step 2) hinit [PeerOpen 1; PeerOpen 2; WorkerAccept; AppCancel; WorkerAccept; PeerPreamble 2;
